@@ -374,8 +374,7 @@ func runDeepOnce(t *fw.T, c deepConstruct, depth int, o js.Options) (stack uint6
 				exerciseAST(t, ast, t.Rng)
 			} else {
 				v := &countVisitor{}
-				js.Walk(v, ast)
-				ast.JS(io.Discard)
+				js.Walk(v, ast) // printing such a tree is quadratic or worse; walking it is linear
 				t.Count("deep.accepted.walk_only", 1)
 			}
 			if s2 := stackBytes(); s2 > stack {
